@@ -237,27 +237,27 @@ fn capacity_body<T: Cell, C: ArrayLength, const R0: usize, const CAP: usize>() {
     core::mem::forget(m);
 }
 
-//@ C19 quick 1800 DenseMatrix<u8, 32>: new(2), writes, layout, clone/eq/from_rows, iter, rev | mem=12
+//@ C19 quick 800 DenseMatrix<u8, 32>: new(2), writes, layout, clone/eq/from_rows, iter, rev | mem=12
 harness!(none, 180, c19_u8_c32_r2_shape, shape_body::<u8, U32, 2>());
-//@ C19 quick 1800 DenseMatrix<u8, 32>: new(2), writes, clone, resize(3), iter_mut, fill | mem=12
+//@ C19 quick 800 DenseMatrix<u8, 32>: new(2), writes, clone, resize(3), iter_mut, fill | mem=12
 harness!(none, 180, c19_u8_c32_r2_r3_resize, resize_body::<u8, U32, 2, 3>());
-//@ C19 quick 1800 DenseMatrix<u8, 43> (stride 64): new(2), writes, layout, clone/eq/from_rows, iter, rev | mem=12
+//@ C19 quick 800 DenseMatrix<u8, 43> (stride 64): new(2), writes, layout, clone/eq/from_rows, iter, rev | mem=12
 harness!(none, 180, c19_u8_c43_r2_shape, shape_body::<u8, U43, 2>());
-//@ C19 quick 1800 DenseMatrix<u8, 43> (stride 64): new(2), writes, clone, resize(1), iter_mut, fill | mem=12
+//@ C19 quick 800 DenseMatrix<u8, 43> (stride 64): new(2), writes, clone, resize(1), iter_mut, fill | mem=12
 harness!(none, 180, c19_u8_c43_r2_r1_resize, resize_body::<u8, U43, 2, 1>());
-//@ C19 quick 1800 DenseMatrix<u32, 5> (stride 8): new(3) ... resize(4)
+//@ C19 quick 800 DenseMatrix<u32, 5> (stride 8): new(3) ... resize(4)
 harness!(none, 180, c19_u32_c5_r3_r4, ops_body::<u32, U5, 3, 4>());
-//@ C19 quick 1800 DenseMatrix<f32, 21> (stride 24): new(2) ... resize(0) | mem=12
+//@ C19 quick 800 DenseMatrix<f32, 21> (stride 24): new(2) ... resize(0) | mem=12
 harness!(none, 180, c19_f32_c21_r2_r0, ops_body::<f32, U21, 2, 0>());
-//@ C19 quick 1800 DenseMatrix<i64, 7> (stride 8): new(1) ... resize(3)
+//@ C19 quick 800 DenseMatrix<i64, 7> (stride 8): new(1) ... resize(3)
 harness!(none, 180, c19_i64_c7_r1_r3, ops_body::<i64, U7, 1, 3>());
-//@ C19 quick 1800 DenseMatrix<u8, 1> (stride 32): new(0) ... resize(2)
+//@ C19 quick 800 DenseMatrix<u8, 1> (stride 32): new(0) ... resize(2)
 harness!(none, 180, c19_u8_c1_r0_r2, ops_body::<u8, U1, 0, 2>());
-//@ C19 quick 1800 DenseMatrix<f32, 16>: with_capacity(2, 5), reserve
+//@ C19 quick 800 DenseMatrix<f32, 16>: with_capacity(2, 5), reserve
 harness!(none, 180, c19_f32_c16_cap, capacity_body::<f32, U16, 2, 5>());
-//@ C19 quick 1800 DenseMatrix<u32, 5>: new(3), writes, resize(1), resize(4) (shrink, then grow past the previous maximum), fill
+//@ C19 quick 800 DenseMatrix<u32, 5>: new(3), writes, resize(1), resize(4) (shrink, then grow past the previous maximum), fill
 harness!(none, 180, c19_u32_c5_r3_r1_r4, resize2_body::<u32, U5, 3, 1, 4>());
-//@ C19 quick 1800 DenseMatrix<u8, 16>: new(2), writes, resize(0), resize(3), fill
+//@ C19 quick 800 DenseMatrix<u8, 16>: new(2), writes, resize(0), resize(3), fill
 harness!(none, 180, c19_u8_c16_r2_r0_r3, resize2_body::<u8, U16, 2, 0, 3>());
 //@ C19 thorough 5400 DenseMatrix<f32, 7>: new(2), writes, resize(3), resize(1), fill
 harness!(none, 180, c19_f32_c7_r2_r3_r1, resize2_body::<f32, U7, 2, 3, 1>());
